@@ -154,8 +154,8 @@ class Message:
         # Convert json string to dict
         d = json.loads(s)
 
-        # Decode header segment
-        hdr_cls = get_header_cls()
+        # Decode header segment (a header with timecode fields was written by a timecode header)
+        hdr_cls = get_header_cls(timecode="utc_seconds" in d["header"])
         hdr = hdr_cls.from_dict(d["header"])
 
         # Decode message data segment
